@@ -598,6 +598,10 @@ func genC19(r *world.Rng, w *world.World, big bool) {
 			t.Text = dimacsText(r, n, cl, true)
 		} else {
 			n, cl := cnfInstance(r, 9, true)
+			if f != "-count" && r.Bool(0.3) { // a longer v line: more room for something else to print in the middle of it
+				n = r.Range(12, 16)
+				cl = randKSAT(r, n, int(float64(n)*(3.0+1.2*r.Float())), 3, 3)
+			}
 			if f == "-count" && len(cl) < n && n > 7 {
 				n = 7
 				var keep [][]int
